@@ -81,6 +81,42 @@ theorem setters_eq_model (r : Record) (c : List Nat) (n : Nat) :
     toModel (pushAux r c) = { toModel r with aux := (toModel r).aux ++ [c] } :=
   ⟨rfl, rfl, rfl, rfl⟩
 
+/-- **`set_name` as written**: the name is auxiliary column 0 — pushed when there is no auxiliary column yet, overwritten otherwise;
+never panics -/
+theorem setName_eq_model (r : Record) (n : List Nat) :
+    setName r n = .ok { r with aux := if r.aux.isEmpty then [n] else r.aux.set 0 n } := by
+  obtain ⟨c, s, e, aux⟩ := r
+  cases aux <;> simp [setName, Rs.setIdx]
+
+/-- **`set_score` as written**: the score is auxiliary column 1; a missing name column is filled with the empty string first;
+never panics -/
+theorem setScore_eq_model (r : Record) (sc : List Nat) :
+    setScore r sc = .ok { r with aux := match r.aux with
+      | [] => [[], sc]
+      | [a] => [a, sc]
+      | a :: _ :: rest => a :: sc :: rest } := by
+  obtain ⟨c, s, e, aux⟩ := r
+  match aux with
+  | [] => simp [setScore]
+  | [a] => simp [setScore]
+  | a :: b :: rest => simp [setScore, Rs.setIdx]
+
+/-- … and the getters read back what the setters stored -/
+theorem name_setName (r r' : Record) (n : List Nat) (h : setName r n = .ok r') : name r' = .ok (some n) := by
+  rw [setName_eq_model] at h
+  cases h
+  obtain ⟨c, s, e, aux⟩ := r
+  cases aux <;> simp [(accessors_eq_model _).1, toModel]
+
+theorem score_setScore (r r' : Record) (sc : List Nat) (h : setScore r sc = .ok r') : score r' = .ok (some sc) := by
+  rw [setScore_eq_model] at h
+  cases h
+  obtain ⟨c, s, e, aux⟩ := r
+  match aux with
+  | [] => simp [(accessors_eq_model _).2.1, toModel]
+  | [a] => simp [(accessors_eq_model _).2.1, toModel]
+  | a :: b :: rest => simp [(accessors_eq_model _).2.1, toModel]
+
 -- c 5 7 n 0 + (one-digit coordinates: `toDec` is defined by well-founded recursion and does not evaluate by `decide`)
 example : (write csvSerialize (fun n => [48 + n]) [] ⟨⟩ ⟨[99], 5, 7, [[110], [48], [43]]⟩).2
     = [99, 9, 53, 9, 55, 9, 110, 9, 48, 9, 43, 10] := by rw [write_fields]; decide
